@@ -109,6 +109,11 @@ Proof.
   split; match goal with |- 1 <= 1 + zlen ?l => pose proof (zlen_nonneg l); lia end.
 Qed.
 
+Lemma pos_of_offset_sat src k : zlen src <= k -> pos_of_offset src k = pos_of_offset src (zlen src).
+Proof.
+  intros H. unfold pos_of_offset. rewrite (ztake_all k) by lia. rewrite (ztake_all (zlen src)) by lia. reflexivity.
+Qed.
+
 (* ---- invariants of the lexer state -------------------------------------------------- *)
 Section Inv.
 Variable src : bytes.
@@ -119,25 +124,23 @@ Notation len := (zlen src).
 Definition W (l : lexer) : Prop :=
   0 <= offset l <= len + 1 /\ ch l = getch src (offset l - 1).
 
-(* the current character is the byte at offset-1 and both positions are the true ones *)
+(* l.pos is the true position of the current byte (offset-1; offset-1 = len: the end of input)
+   and l.nextPos the true position of the next one (the end-of-input position once past it) *)
 Definition Norm (l : lexer) : Prop :=
-  1 <= offset l /\ lpos l = P (offset l - 1) /\ npos l = adv (P (offset l - 1)) (ch l).
+  1 <= offset l /\ lpos l = P (offset l - 1) /\ npos l = P (offset l).
 
-(* the end was reached without the extra step (source empty or ending in a NUL byte) *)
+(* the end was reached without the extra step of offset (source empty, or ending in a NUL byte
+   and next() called on it) *)
 Definition EndS (l : lexer) : Prop :=
   offset l = len /\ ch l = 0 /\ lpos l = P len /\ npos l = P len.
 
-(* next() was called after the end had been loaded *)
-Definition OverS (l : lexer) : Prop :=
-  offset l = len + 1 /\ ch l = 0 /\ over l = true.
+Definition PosInv (l : lexer) : Prop := Norm l \/ EndS l.
 
-Definition PosInv (l : lexer) : Prop := Norm l \/ EndS l \/ OverS l.
+Definition Inv (l : lexer) : Prop := W l /\ PosInv l.
+Definition NormInv (l : lexer) : Prop := W l /\ Norm l.
 
-Definition Inv0 (l : lexer) : Prop := W l /\ (xl l = false -> PosInv l).
-Definition NormInv0 (l : lexer) : Prop := W l /\ 1 <= offset l /\ (xl l = false -> Norm l).
-
-Lemma NormInv0_Inv0 l : NormInv0 l -> Inv0 l.
-Proof. intros (Hw & _ & Hn). split; [assumption|]. intros H; left; auto. Qed.
+Lemma NormInv_Inv l : NormInv l -> Inv l.
+Proof. intros (Hw & Hn). split; [assumption|left; assumption]. Qed.
 
 Lemma W_ch_nonzero l : W l -> ch l <> 0 -> 1 <= offset l <= len /\ index src (offset l - 1) = Ok (ch l).
 Proof.
@@ -145,190 +148,105 @@ Proof.
   rewrite <- Hc in Hi. split; [lia|assumption].
 Qed.
 
-Lemma Inv0_nonzero_NormInv0 l : Inv0 l -> ch l <> 0 -> NormInv0 l.
+Lemma Inv_nonzero_NormInv l : Inv l -> ch l <> 0 -> NormInv l.
 Proof.
-  intros (Hw & Hp) Hnz. pose proof (W_ch_nonzero _ Hw Hnz) as (Ho & _).
-  split; [assumption|]. split; [lia|]. intros Hx. destruct (Hp Hx) as [Hn|[He|Ho']]; [assumption| |].
-  - destruct He as (_ & Hz & _). congruence.
-  - destruct Ho' as (_ & Hz & _). congruence.
+  intros (Hw & Hp) Hnz. split; [assumption|].
+  destruct Hp as [Hn|He]; [assumption|]. destruct He as (_ & Hz & _). congruence.
 Qed.
 
-(* the position an ILLEGAL token reports, whatever the state *)
-Lemma Inv0_lpos_exists l :
-  Inv0 l -> xl l = false -> over l = false -> exists k, 0 <= k <= len /\ lpos l = P k.
+(* whatever the state, l.pos is the position of some offset 0..len of the source *)
+Lemma Inv_lpos_exists l : Inv l -> exists k, 0 <= k <= len /\ lpos l = P k.
 Proof.
-  intros ((Hb & Hc) & Hp) Hx Hov. destruct (Hp Hx) as [Hn|[He|Ho]].
+  intros ((Hb & Hc) & Hp). destruct Hp as [Hn|He].
   - destruct Hn as (H1 & Hl & _). exists (offset l - 1). split; [lia|assumption].
   - destruct He as (_ & _ & Hl & _). exists len. pose proof (zlen_nonneg src). split; [lia|assumption].
-  - destruct Ho as (_ & _ & Ho). congruence.
 Qed.
 
-(* ---- next ---------------------------------------------------------------------------- *)
-Lemma adv_zero p : adv p 0 = col_add p 1.
-Proof. reflexivity. Qed.
+Lemma Inv_W l : Inv l -> W l.
+Proof. intros (H & _); exact H. Qed.
 
-Lemma next_inv0 l :
-  Inv0 l ->
-  okr (fun l' => Inv0 l' /\ xl l' = xl l /\ offset l <= offset l' <= offset l + 1 /\
+Lemma NormInv_W l : NormInv l -> W l.
+Proof. intros (H & _); exact H. Qed.
+
+Lemma NormInv_bounds l : NormInv l -> 1 <= offset l <= len + 1.
+Proof. intros ((Hb & _) & H1 & _). lia. Qed.
+
+Lemma NormInv_norm l : NormInv l -> Norm l.
+Proof. intros (_ & H). exact H. Qed.
+
+(* ---- next ---------------------------------------------------------------------------- *)
+Lemma next_inv l :
+  Inv l ->
+  okr (fun l' => Inv l' /\ offset l <= offset l' <= offset l + 1 /\
                  (ch l <> 0 -> offset l' = offset l + 1) /\
                  hadSpace l' = hadSpace l /\ lastTok l' = lastTok l /\ lpos l' = npos l /\
-                 (xl l = false -> offset l < len \/ ch l <> 0 -> Norm l'))
+                 (Norm l -> offset l <> len \/ ch l <> 0 -> Norm l'))
       (next src l).
 Proof.
   intros ((Hb & Hc) & Hp). unfold next.
   destruct (offset l >=? len) eqn:Ege.
   - destruct (ch l =? 0) eqn:Ez.
-    + (* already at the end with ch = 0 *)
-      apply okr_ret. cbn [offset ch lpos npos xl over hadSpace lastTok].
-      splits; try lia; try assumption; try reflexivity.
-      split; [split; cbn [offset ch]; assumption|]. cbn [xl].
-      intros Hx. specialize (Hp Hx). destruct Hp as [Hn|[He|Ho]].
-      * destruct Hn as (H1 & Hl & Hn).
-        assert (Ech : ch l = 0) by lia. rewrite Ech, adv_zero in Hn.
-        destruct (offset l >? len) eqn:Egt.
-        -- right; right. unfold OverS; cbn [offset ch over]. splits; try lia.
-        -- right; left. unfold EndS; cbn [offset ch lpos npos].
-           assert (Eo : offset l = len) by lia.
-           assert (Hi : index src (len - 1) = Ok 0).
-           { destruct (index_ok src (len - 1)) as (c & Hc'); [lia|].
-             rewrite Eo in Hc. rewrite (getch_index _ _ _ Hc') in Hc. congruence. }
-           pose proof (pos_of_offset_step _ _ _ Hi) as Hs.
-           replace (len - 1 + 1) with len in Hs by lia. rewrite adv_zero in Hs.
-           rewrite Eo in Hn. splits; try lia; congruence.
-      * destruct He as (Eo & _ & Hl & Hn). right; left. unfold EndS; cbn [offset ch lpos npos].
-        splits; try lia; assumption.
-      * destruct Ho as (Eo & _ & Hov). right; right. unfold OverS; cbn [offset ch over].
-        splits; try lia; try (rewrite Hov; reflexivity).
+    + (* at the end with ch = 0: only l.pos := l.nextPos *)
+      assert (Ech : ch l = 0) by lia.
+      apply okr_ret. cbn [offset ch lpos npos hadSpace lastTok].
+      splits; try lia; try reflexivity.
+      * split; [split; cbn [offset ch]; assumption|].
+        destruct Hp as [Hn|He].
+        -- destruct Hn as (H1 & Hl & Hn).
+           destruct (Z.eq_dec (offset l) len) as [Eo|Eo].
+           ++ right. unfold EndS; cbn [offset ch lpos npos]. rewrite Eo in Hn. splits; try lia; assumption.
+           ++ left. unfold Norm; cbn [offset lpos npos]. assert (Eo' : offset l = len + 1) by lia.
+              rewrite Eo' in *. replace (len + 1 - 1) with len by lia.
+              rewrite (pos_of_offset_sat src (len + 1)) in Hn by lia. splits; try lia; try assumption.
+              rewrite (pos_of_offset_sat src (len + 1)) by lia. assumption.
+        -- destruct He as (Eo & _ & Hl & Hn). right. unfold EndS; cbn [offset ch lpos npos].
+           splits; try lia; assumption.
+      * intros (H1 & Hl & Hn) Hor. assert (Eo' : offset l = len + 1) by lia.
+        unfold Norm; cbn [offset lpos npos]. rewrite Eo' in *. replace (len + 1 - 1) with len by lia.
+        rewrite (pos_of_offset_sat src (len + 1)) in Hn by lia. splits; try lia; try assumption.
+        rewrite (pos_of_offset_sat src (len + 1)) by lia. assumption.
     + (* the end is loaded now *)
       assert (Hnz : ch l <> 0) by lia.
       pose proof (W_ch_nonzero l (conj Hb Hc) Hnz) as (Ho & Hi).
       assert (Eo : offset l = len) by lia.
-      assert (HN : xl l = false -> Norm (mkL (offset l + 1) 0 (npos l) (col_add (npos l) 1) (hadSpace l) (lastTok l) (xl l) (over l))).
-      { intros Hx. specialize (Hp Hx).
-        destruct Hp as [Hn|[He|Hov]]; [|destruct He as (_ & Hz & _); congruence|destruct Hov as (_ & Hz & _); congruence].
+      assert (HN : Norm (mkL (offset l + 1) 0 (npos l) (npos l) (hadSpace l) (lastTok l))).
+      { destruct Hp as [Hn|He]; [|destruct He as (_ & Hz & _); congruence].
         destruct Hn as (H1 & Hl & Hn). unfold Norm; cbn [offset ch lpos npos].
-        pose proof (pos_of_offset_step _ _ _ Hi) as Hs.
-        replace (offset l - 1 + 1) with (offset l) in Hs by lia.
         replace (offset l + 1 - 1) with (offset l) by lia.
-        rewrite adv_zero. splits; try lia; congruence. }
-      apply okr_ret. cbn [offset ch lpos npos xl over hadSpace lastTok].
+        rewrite (pos_of_offset_sat src (offset l + 1)) by lia. rewrite Eo in *.
+        splits; try lia; assumption. }
+      apply okr_ret. cbn [offset ch lpos npos hadSpace lastTok].
       splits; try lia; auto.
-      split; [split; cbn [offset ch]; [lia|rewrite getch_out; lia]|].
-      cbn [xl]. intros Hx. left. auto.
+      split; [split; cbn [offset ch]; [lia|rewrite getch_out; lia]|]. left. exact HN.
   - (* an ordinary byte *)
     destruct (index_ok src (offset l)) as (c & Hi); [lia|]. rewrite Hi. cbn [of_res lbind].
-    assert (HN : xl l = false -> Norm (mkL (offset l + 1) c (npos l)
+    assert (HN : Norm (mkL (offset l + 1) c (npos l)
                 (if c =? 10 then (fst (npos l) + 1, 1) else if c =? 13 then npos l else col_add (npos l) 1)
-                (hadSpace l) (lastTok l) (xl l) (over l))).
-    { intros Hx. specialize (Hp Hx).
-      assert (Hn : Norm l).
-      { destruct Hp as [Hn|[He|Hov]]; [assumption|destruct He as (Eo & _); lia|destruct Hov as (Eo & _); lia]. }
+                (hadSpace l) (lastTok l))).
+    { assert (Hn : Norm l) by (destruct Hp as [Hn|He]; [assumption|destruct He as (Eo & _); lia]).
       destruct Hn as (H1 & Hl & Hn). unfold Norm; cbn [offset ch lpos npos].
       replace (offset l + 1 - 1) with (offset l) by lia.
-      assert (Hs : P (offset l) = npos l).
-      { destruct (index_ok src (offset l - 1)) as (c0 & Hc0); [lia|].
-        rewrite (getch_index _ _ _ Hc0) in Hc.
-        pose proof (pos_of_offset_step _ _ _ Hc0) as Hs.
-        replace (offset l - 1 + 1) with (offset l) in Hs by lia. congruence. }
-      splits; try lia; [congruence|].
-      rewrite Hs. unfold adv, col_add. reflexivity. }
-    apply okr_ret. cbn [offset ch lpos npos xl over hadSpace lastTok].
+      splits; try lia; [assumption|].
+      rewrite (pos_of_offset_step _ _ _ Hi), <- Hn. reflexivity. }
+    apply okr_ret. cbn [offset ch lpos npos hadSpace lastTok].
     splits; try lia; auto.
-    split; [split; cbn [offset ch]; [lia|]|].
-    + replace (offset l + 1 - 1) with (offset l) by lia.
-      symmetry; apply getch_index; assumption.
-    + cbn [xl]. intros Hx. left. auto.
+    split; [split; cbn [offset ch]; [lia|]|left; exact HN].
+    replace (offset l + 1 - 1) with (offset l) by lia.
+    symmetry; apply getch_index; assumption.
 Qed.
 
 (* from a normal state with a real current character the state stays normal *)
-Lemma next_norm0 l :
-  NormInv0 l -> ch l <> 0 ->
-  okr (fun l' => NormInv0 l' /\ xl l' = xl l /\ offset l' = offset l + 1 /\
-                 hadSpace l' = hadSpace l /\ lastTok l' = lastTok l /\ lpos l' = npos l)
-      (next src l).
-Proof.
-  intros Hn Hnz. pose proof (NormInv0_Inv0 _ Hn) as Hi.
-  destruct (next_inv0 l Hi) as (l' & E & Hi' & Hx & Ho & Ho1 & Hh & Ht & Hl & HN).
-  exists l'. split; [assumption|]. specialize (Ho1 Hnz).
-  destruct Hn as (Hw & H1 & _).
-  splits; try assumption; try lia.
-  split; [apply Hi'|]. split; [lia|].
-  intros Hx'. apply HN; [congruence|right; assumption].
-Qed.
-
-
-(* ---- the ghost flag over: it is only ever set when the last byte of the source is a backslash,
-   provided next() is called at the end of input only from the two places that do so (after a
-   backslash inside a string or a regex) ---------------------------------------------------- *)
-Definition BS : Prop := getch src (len - 1) = 92.
-Definition OverOK (l : lexer) : Prop := over l = true -> BS.
-
-Lemma next_over l l' :
-  next src l = LOk l' -> W l -> OverOK l -> ch l <> 0 \/ getch src (offset l - 2) = 92 -> OverOK l'.
-Proof.
-  intros E (Hb & Hc) Hov Hpre. unfold next in E.
-  destruct (offset l >=? len) eqn:Ege.
-  - destruct (ch l =? 0) eqn:Ez.
-    + injection E as <-. unfold OverOK; cbn [over]. intros Ho.
-      destruct (over l) eqn:Eo; [apply Hov; exact Eo|].
-      cbn [orb] in Ho. assert (Eoff : offset l = len + 1) by lia.
-      destruct Hpre as [Hnz|Hbs]; [lia|]. unfold BS. rewrite Eoff in Hbs.
-      replace (len + 1 - 2) with (len - 1) in Hbs by lia. exact Hbs.
-    + injection E as <-. exact Hov.
-  - destruct (index src (offset l)); try discriminate. cbn in E. injection E as <-. exact Hov.
-Qed.
-
-Definition Inv (l : lexer) : Prop := Inv0 l /\ OverOK l.
-Definition NormInv (l : lexer) : Prop := NormInv0 l /\ OverOK l.
-
-Lemma NormInv_Inv l : NormInv l -> Inv l.
-Proof. intros (H & Ho). split; [apply NormInv0_Inv0; exact H|exact Ho]. Qed.
-
-Lemma Inv_nonzero_NormInv l : Inv l -> ch l <> 0 -> NormInv l.
-Proof. intros (H & Ho) Hnz. split; [apply Inv0_nonzero_NormInv0; assumption|exact Ho]. Qed.
-
-Lemma Inv_lpos_exists l :
-  Inv l -> xl l = false -> over l = false -> exists k, 0 <= k <= len /\ lpos l = P k.
-Proof. intros (H & _). apply Inv0_lpos_exists; exact H. Qed.
-
-Lemma Inv_W l : Inv l -> W l.
-Proof. intros ((H & _) & _); exact H. Qed.
-
-Lemma NormInv_W l : NormInv l -> W l.
-Proof. intros ((H & _) & _); exact H. Qed.
-
-Lemma NormInv_bounds l : NormInv l -> 1 <= offset l <= len + 1.
-Proof. intros (((Hb & _) & H1 & _) & _). lia. Qed.
-
-Lemma NormInv_norm l : NormInv l -> xl l = false -> Norm l.
-Proof. intros ((_ & _ & H) & _). exact H. Qed.
-
-Lemma Inv_over l : Inv l -> over l = true -> BS.
-Proof. intros (_ & H). exact H. Qed.
-
-Lemma next_inv l :
-  Inv l -> ch l <> 0 \/ getch src (offset l - 2) = 92 ->
-  okr (fun l' => Inv l' /\ xl l' = xl l /\ offset l <= offset l' <= offset l + 1 /\
-                 (ch l <> 0 -> offset l' = offset l + 1) /\
-                 hadSpace l' = hadSpace l /\ lastTok l' = lastTok l /\ lpos l' = npos l)
-      (next src l).
-Proof.
-  intros (Hi & Ho) Hpre.
-  destruct (next_inv0 l Hi) as (l' & E & Hi' & H2 & H3 & H4 & H5 & H6 & H7 & _).
-  exists l'. split; [exact E|]. splits; try assumption; try lia.
-  split; [exact Hi'|]. apply (next_over l l' E); [apply Hi|exact Ho|exact Hpre].
-Qed.
-
 Lemma next_norm l :
   NormInv l -> ch l <> 0 ->
-  okr (fun l' => NormInv l' /\ xl l' = xl l /\ offset l' = offset l + 1 /\
+  okr (fun l' => NormInv l' /\ offset l' = offset l + 1 /\
                  hadSpace l' = hadSpace l /\ lastTok l' = lastTok l /\ lpos l' = npos l)
       (next src l).
 Proof.
-  intros (Hn & Ho) Hnz.
-  destruct (next_norm0 l Hn Hnz) as (l' & E & Hn' & H2 & H3 & H4 & H5 & H6).
-  exists l'. split; [exact E|]. splits; try assumption; try lia.
-  split; [exact Hn'|]. apply (next_over l l' E); [apply Hn|exact Ho|left; exact Hnz].
+  intros Hn Hnz. pose proof (NormInv_Inv _ Hn) as Hi.
+  destruct (next_inv l Hi) as (l' & E & Hi' & Ho & Ho1 & Hh & Ht & Hl & HN).
+  exists l'. split; [assumption|]. specialize (Ho1 Hnz).
+  splits; try assumption; try lia.
+  split; [apply Hi'|]. apply HN; [apply Hn|right; assumption].
 Qed.
 
 End Inv.
